@@ -13,6 +13,7 @@ import (
 	"fmt"
 	"sort"
 	"strings"
+	"sync/atomic"
 	"testing"
 
 	"github.com/synnaxlabs/x/errors"
@@ -316,8 +317,11 @@ func genScriptWith(t *rapid.T, dup bool) Script {
 			s := o[rapid.IntRange(0, len(o)-1).Draw(t, "slot")]
 			g.open[s] = false
 			kind := "commit"
-			if rapid.IntRange(0, 9).Draw(t, "abort") < 3 {
+			switch a := rapid.IntRange(0, 10).Draw(t, "abort"); {
+			case a < 3:
 				kind = "abort"
+			case a == 10:
+				kind = "commitfail" // the key-value store refuses the commit
 			}
 			sc.Ops = append(sc.Ops, Op{Kind: kind, Tx: s})
 		case w < 35: // create
@@ -653,24 +657,48 @@ func (n *FNode) String() string {
 // ---------------------------------------------------------------- system under test
 
 type sut struct {
-	ctx   context.Context
-	sc    *Script
-	db    *gorp.DB
-	obs   observe.Observer[kv.TxReader] // ext mode only
-	table *gorp.Table[int32, Row]
-	idxA  *gorp.LookupIndex[int32, Row, string]
-	idxB  *gorp.LookupIndex[int32, Row, string]
-	idxS  *gorp.SortedIndex[int32, Row, int64]
-	txs   [4]gorp.Tx
-	m     *model
-	rep   *kit.Report
-	final bool // end-of-history checks: do not count towards the script's classes
+	refuse *refuseCommitDB
+	ctx    context.Context
+	sc     *Script
+	db     *gorp.DB
+	obs    observe.Observer[kv.TxReader] // ext mode only
+	table  *gorp.Table[int32, Row]
+	idxA   *gorp.LookupIndex[int32, Row, string]
+	idxB   *gorp.LookupIndex[int32, Row, string]
+	idxS   *gorp.SortedIndex[int32, Row, int64]
+	txs    [4]gorp.Tx
+	m      *model
+	rep    *kit.Report
+	final  bool // end-of-history checks: do not count towards the script's classes
 	// popFailed: the current indexes failed to populate (FailPopulate until the first reopen)
 	popFailed bool
 }
 
 // failOnceDB refuses the first iterator opened directly on the DB (the populate scan);
 // iterators opened through transactions (migrations) are not affected.
+// refuseCommitDB wraps the key-value store: while armed, the Commit of a transaction opened
+// on it returns an error and persists nothing.
+type refuseCommitDB struct {
+	kv.DB
+	armed atomic.Bool
+}
+
+var errCommitRefused = errors.New("verif: commit refused by the key-value store")
+
+func (d *refuseCommitDB) OpenTx() kv.Tx { return &refuseCommitTx{Tx: d.DB.OpenTx(), db: d} }
+
+type refuseCommitTx struct {
+	kv.Tx
+	db *refuseCommitDB
+}
+
+func (t *refuseCommitTx) Commit(ctx context.Context, opts ...any) error {
+	if t.db.armed.Load() {
+		return errCommitRefused
+	}
+	return t.Tx.Commit(ctx, opts...)
+}
+
 type failOnceDB struct {
 	kv.DB
 	armed bool
@@ -1336,6 +1364,9 @@ func execute(sc Script, rep *kit.Report) (ret error) {
 	}
 	s := &sut{ctx: ctx, sc: &sc, rep: rep, m: &model{committed: map[int32]Row{}}}
 	var store kv.DB = memkv.New()
+	refuse := &refuseCommitDB{DB: store}
+	store = refuse
+	s.refuse = refuse
 	fail := &failOnceDB{DB: store}
 	if sc.FailPopulate && !sc.NoWait {
 		store = fail
@@ -1414,14 +1445,26 @@ func execute(sc Script, rep *kit.Report) (ret error) {
 			if n == 3 {
 				rep.Class("three-open-tx")
 			}
-		case "commit", "abort":
+		case "commit", "abort", "commitfail":
 			tx, ok := s.handle(op.Tx)
 			if !ok || op.Tx == 0 {
 				rep.Class("skipped-op")
 				continue
 			}
 			ov := s.m.tx[op.Tx]
-			if op.Kind == "commit" {
+			if op.Kind == "commitfail" {
+				// the underlying store refuses the commit: nothing is persisted, so the
+				// transaction must leave no trace - in the table or in any index
+				s.refuse.armed.Store(true)
+				err := tx.Commit(ctx)
+				s.refuse.armed.Store(false)
+				if err == nil {
+					return kit.Fail("failed-commit-reported-success", "step %d: the key-value store refused the commit of %s but gorp's Commit returned nil", step, reader(op.Tx))
+				}
+				if len(ov) > 0 {
+					rep.Class("refused-commit-with-writes")
+				}
+			} else if op.Kind == "commit" {
 				if err := tx.Commit(ctx); err != nil {
 					return kit.Fail("unexpected-error", "step %d: commit %s: %v", step, reader(op.Tx), err)
 				}
